@@ -446,6 +446,16 @@ class RealHistory:
         self.held = {}
 
 
+STATS = {}
+
+
+def take_stats():
+    """what the real executions did since the last call (kinds of callables registered, loads through the file API)"""
+    s = dict(STATS)
+    STATS.clear()
+    return s
+
+
 def run_real(real, history, budget=3000000, unstable=None, atom_mode='fresh'):
     h = RealHistory(real, budget, atom_mode=atom_mode)
     try:
@@ -453,6 +463,10 @@ def run_real(real, history, budget=3000000, unstable=None, atom_mode='fresh'):
             h.step(st)
     finally:
         h.finish()
+        for kd, nk in getattr(h, 'callable_kinds', {}).items():
+            STATS['registered_' + kd] = STATS.get('registered_' + kd, 0) + nk
+        if getattr(h, 'loads_from_file', 0):
+            STATS['loads_through_file_api'] = STATS.get('loads_through_file_api', 0) + h.loads_from_file
     if unstable is not None:
         unstable.extend(h.check_saved())
     return h.obs
